@@ -231,6 +231,77 @@ def names_of(stmts):
     return out
 
 
+def _layout(st):
+    return (type(st).__name__, tuple(k for k, _ in slots(st)))
+
+
+def alternative_pairings(sb, images, cap=20000):
+    """orderings of `images` under which the i-th image has the type and slot layout of the i-th statement of B and
+    all expression slots unify under one consistent renaming (backtracking search, `cap` nodes)"""
+    n = len(sb)
+    lay_s = [_layout(st) for st in sb]
+    lay_i = [_layout(im) for im in images]
+    slots_s = [slots(st) for st in sb]
+    slots_i = [slots(im) for im in images]
+    nodes = [0]
+
+    def fits(a, b, rho):
+        for (k, e1), (_, e2) in zip(slots_s[a], slots_i[b]):
+            if isinstance(e1, str) or isinstance(e2, str):
+                if e1 != e2:
+                    return False
+                continue
+            if unify_names(e1, e2, rho, ""):
+                return False
+        return True
+
+    def rec(a, used, rho):
+        if a == n:
+            yield [images[b] for b in used]
+            return
+        for b in range(n):
+            if b in used or lay_i[b] != lay_s[a]:
+                continue
+            nodes[0] += 1
+            if nodes[0] > cap:
+                return
+            r2 = dict(rho)
+            if fits(a, b, r2):
+                yield from rec(a + 1, used + [b], r2)
+    for out in rec(0, [], {}):
+        if all(x is y for x, y in zip(out, images)):
+            continue
+        yield out
+
+
+def check_images(ph, sb, b_images):
+    """B's statements against their images (paired by position): returns ((sub, detail) or None, renaming)"""
+    idmap = {}
+    rho = {}
+    for st, im in zip(sb, b_images):
+        idmap[st.id] = im.id
+    for st, im in zip(sb, b_images):
+        if type(st) is not type(im):
+            return ("B-not-renaming-image(kind)", "phase %s: %s became %s" % (ph, st, im)), rho
+        if {idmap[d] for d in st.depends_on} != set(im.depends_on):
+            return ("B-not-renaming-image(depends_on)", "phase %s: dependencies of %s are %s, expected %s" % (
+                ph, im.id, sorted(im.depends_on), sorted(idmap[d] for d in st.depends_on))), rho
+        s1, s2 = slots(st), slots(im)
+        if [k for k, _ in s1] != [k for k, _ in s2]:
+            return ("B-not-renaming-image(slots)", "phase %s: %s became %s" % (ph, st, im)), rho
+        for (k, e1), (_, e2) in zip(s1, s2):
+            if isinstance(e1, str) or isinstance(e2, str):
+                if e1 != e2:
+                    return ("B-not-renaming-image(%s)" % k.split(".")[-1].rstrip("0123456789"),
+                            "phase %s: %s of '%s' became %r" % (ph, k, st, e2)), rho
+                continue
+            r = unify_names(e1, e2, rho, "%s of '%s' -> '%s'" % (k, st, im))
+            if r:
+                slot = k.split(".")[-1].rstrip("0123456789")
+                return ("B-not-renaming-image(%s)" % slot, "phase %s: %s" % (ph, r)), rho
+    return None, rho
+
+
 def check_structure(dagA, dagB, fused, pred_name):
     pred = PREDICATES[pred_name]
     for ph in dagA.phases:
@@ -253,61 +324,56 @@ def check_structure(dagA, dagB, fused, pred_name):
         b_images = [s for s in sf if s.id not in a_ids]
         if len(b_images) != len(sb):
             return ("count/ids", "phase %s: cannot separate the second method's statements" % ph)
-        # id bijection: fuse keeps B's order
-        idmap = {}
-        rho = {}
-        for s, im in zip(sb, b_images):
-            idmap[s.id] = im.id
-        for s, im in zip(sb, b_images):
-            if type(s) is not type(im):
-                return ("B-not-renaming-image(kind)", "phase %s: %s became %s" % (ph, s, im))
-            if {idmap[d] for d in s.depends_on} != set(im.depends_on):
-                return ("B-not-renaming-image(depends_on)", "phase %s: dependencies of %s are %s, expected %s" % (
-                    ph, im.id, sorted(im.depends_on), sorted(idmap[d] for d in s.depends_on)))
-            s1, s2 = slots(s), slots(im)
-            if [k for k, _ in s1] != [k for k, _ in s2]:
-                return ("B-not-renaming-image(slots)", "phase %s: %s became %s" % (ph, s, im))
-            for (k, e1), (_, e2) in zip(s1, s2):
-                if isinstance(e1, str) or isinstance(e2, str):
-                    if e1 != e2:
-                        return ("B-not-renaming-image(%s)" % k.split(".")[-1].rstrip("0123456789"),
-                                "phase %s: %s of '%s' became %r" % (ph, k, s, e2))
-                    continue
-                r = unify_names(e1, e2, rho, "%s of '%s' -> '%s'" % (k, s, im))
-                if r:
-                    slot = k.split(".")[-1].rstrip("0123456789")
-                    return ("B-not-renaming-image(%s)" % slot, "phase %s: %s" % (ph, r))
-        # rho: injective, persistent names per predicate, new names new
-        inv = {}
-        for k, v in rho.items():
-            if v in inv and inv[v] != k:
-                return ("renaming-not-injective", "phase %s: %s and %s are both renamed to %s" % (ph, inv[v], k, v))
-            inv[v] = k
-        na, nb = names_of(sa), names_of(sb)
-        for k, v in sorted(rho.items()):
-            clash = k in na
+        # which image belongs to which statement of B: in the order B lists them if that works, otherwise any pairing
+        # of statements with images of the same type and slot layout under which every check passes (the order of the
+        # fused statement list is not part of the property)
+        err = judge(ph, sa, sb, b_images, pred)
+        if err is not None:
+            for alt in alternative_pairings(sb, b_images):
+                if judge(ph, sa, sb, alt, pred) is None:
+                    err = None
+                    break
+        if err is not None:
+            return err
+    return None
+
+
+def judge(ph, sa, sb, b_images, pred):
+    """verdict for one pairing of B's statements with their images (by position)"""
+    err, rho = check_images(ph, sb, b_images)
+    if err is not None:
+        return err
+    # rho: injective, persistent names per predicate, new names new
+    inv = {}
+    for k, v in rho.items():
+        if v in inv and inv[v] != k:
+            return ("renaming-not-injective", "phase %s: %s and %s are both renamed to %s" % (ph, inv[v], k, v))
+        inv[v] = k
+    na, nb = names_of(sa), names_of(sb)
+    for k, v in sorted(rho.items()):
+        clash = k in na
+        if pred is None:
+            want_renamed = clash and not is_persistent(k)
+        else:
+            want_renamed = clash and bool(pred(k))
+        if k != v and not want_renamed:
+            cls = name_class(k)
+            if pred is None or not clash:
+                return ("persistent-renamed(%s)" % cls if is_persistent(k) else "needless-rename(%s)" % cls,
+                        "phase %s: %s was renamed to %s although %s" % (
+                            ph, k, v, "it does not clash" if not clash else "it is persistent state shared "
+                            "by both methods"))
+            return ("predicate-ignored(%s)" % cls, "phase %s: %s was renamed to %s although "
+                    "should_disambiguate_name says no" % (ph, k, v))
+        if k == v and want_renamed:
+            cls = name_class(k)
             if pred is None:
-                want_renamed = clash and not is_persistent(k)
-            else:
-                want_renamed = clash and bool(pred(k))
-            if k != v and not want_renamed:
-                cls = name_class(k)
-                if pred is None or not clash:
-                    return ("persistent-renamed(%s)" % cls if is_persistent(k) else "needless-rename(%s)" % cls,
-                            "phase %s: %s was renamed to %s although %s" % (
-                                ph, k, v, "it does not clash" if not clash else "it is persistent state shared "
-                                "by both methods"))
-                return ("predicate-ignored(%s)" % cls, "phase %s: %s was renamed to %s although "
-                        "should_disambiguate_name says no" % (ph, k, v))
-            if k == v and want_renamed:
-                cls = name_class(k)
-                if pred is None:
-                    return ("temporaries-shared(%s)" % cls, "phase %s: both methods use the per-step variable %s and "
-                            "it was not renamed" % (ph, k))
-                return ("predicate-ignored(%s)" % cls, "phase %s: %s clashes and should_disambiguate_name says "
-                        "yes, but it was not renamed" % (ph, k))
-            if k != v and (v in na or v in nb):
-                return ("renaming-captures", "phase %s: %s is renamed to %s, which is already in use" % (ph, k, v))
+                return ("temporaries-shared(%s)" % cls, "phase %s: both methods use the per-step variable %s and "
+                        "it was not renamed" % (ph, k))
+            return ("predicate-ignored(%s)" % cls, "phase %s: %s clashes and should_disambiguate_name says "
+                    "yes, but it was not renamed" % (ph, k))
+        if k != v and (v in na or v in nb):
+            return ("renaming-captures", "phase %s: %s is renamed to %s, which is already in use" % (ph, k, v))
     return None
 
 
